@@ -66,7 +66,7 @@ def parse_out(line):
     """-> list of (head, [flash ops])"""
     out = []
     for tok in line.split(" ; "):
-        m = re.match(r"^(.*?)(?:\[(.*)\])?(?:#(\d+))?$", tok, re.S)
+        m = re.match(r"^(.*?)(?:\[(.*)\])?(?:#(\d+)(?:/[0-9a-f]+)?)?$", tok, re.S)
         head, lg = m.group(1), m.group(2)
         out.append(Tok(head, lg.split(",") if lg else [], int(m.group(3) or 0)))
     return out
